@@ -239,6 +239,12 @@ class PeeweeStorage(AbstractStorage):
             raise ValueError("Bucket did not exist, could not get metadata")
 
     def insert_one(self, bucket_id: str, event: Event) -> Event:
+        if event.id is not None:
+            # An event that carries an id is an update of that event: only events of
+            # this bucket may be touched (ids are global across buckets)
+            if self._get_event(bucket_id, event.id) is None:
+                return event
+            return self.replace(bucket_id, event.id, event)
         e = EventModel.from_event(self.bucket_keys[bucket_id], event)
         e.save()
         event.id = e.id
